@@ -279,9 +279,9 @@ PwSeedReadMask(t) ==
   /\ At(t, "seed", "PwSeedReadMask")
   /\ LET l == L[t]
          w == Ws(l.x)
-         bits == l.cnt - l.g * GS
-         mk == IF l.g = l.gi THEN {b \in w.mask[l.g] : b < bits} ELSE w.mask[l.g]
-     IN Commit(S, t, Goto(Push([l EXCEPT !.wn = IF mk = {} THEN 0 ELSE 1000], "SeedNext"), "bw", "EwBump"), G)
+     \* always bumpAndWakeAll: the sleep mask is not consulted (a thread claimed by claimAndWakeOne can be parked
+     \* with its bit cleared; /repo fix "range and cascade wakes do not trust the sleep mask")
+     IN Commit(S, t, Goto(Push([l EXCEPT !.wn = 1000], "SeedNext"), "bw", "EwBump"), G)
 
 \* ------------------------------------------------------------------ wakeAll
 PwAllReadMask(t) ==
@@ -297,8 +297,7 @@ PwCascadeReadMask(t) ==
   /\ LET l == L[t]
          gen == S.wrap[l.tid] \div 100     \* wrap = gen*100 + target group
          tg == S.wrap[l.tid] % 100
-         mk == Ws(gen).mask[tg]
-     IN Commit(S, t, Goto(Push([l EXCEPT !.x = gen, !.g = tg, !.wn = IF mk = {} THEN 0 ELSE 1000], "CascInner"),
+     IN Commit(S, t, Goto(Push([l EXCEPT !.x = gen, !.g = tg, !.wn = 1000], "CascInner"),   \* always bumpAndWakeAll
                           "bw", "EwBump"), G)
 
 \* ------------------------------------------------------------------ enqueueToCentralQueue(tid)
